@@ -114,6 +114,9 @@ def run(ctx):
     P = rand_params(model, rng, N)
     X = rand_state(model, rng, N)
     U = rng.uniform(0, 2000, (N, 4))
+    # "all rotor commands": some negative ones too (a reversing ESC, a command below idle): first-order relaxation towards the command as given
+    neg = rng.random((N, 4)) < 0.06
+    U = np.where(neg, -rng.uniform(0, 800, (N, 4)), U)
     (xd, ya, yg), pr = ev(X, U, P, Z3, one)
     ctx.cells_from("predicates", pr)
     xd, ya, yg = xd[:, :, 0], ya[:, :, 0], yg[:, :, 0]
@@ -230,6 +233,7 @@ def motor_histories(ctx, model, ev, rng, H, IM):
     X = rand_state(model, rng, H)
     X[:, IM] = rng.uniform(0, 2000, (H, 4))
     U = rng.uniform(0, 2000, (H, 4))
+    U = np.where(rng.random((H, 4)) < 0.06, -rng.uniform(0, 800, (H, 4)), U)
     up = U > X[:, IM]
     tau = np.where(up, pcol(model, P, "tau_up")[:, None], pcol(model, P, "tau_down")[:, None])
     h = (np.minimum(pcol(model, P, "tau_up"), pcol(model, P, "tau_down")) / 40)
